@@ -1,0 +1,13 @@
+//go:build verif
+
+package schedule
+
+// Contracts for govc (see /verif/DESIGN.md).  This file is comment-only and is compiled only with -tags=verif.
+
+//@ func (r *dayRange) contains(offset time.Duration) (ok bool)
+//@   property C18
+//@   ensures ok == (r.start <= offset && offset < r.end)
+
+//@ func (w *Weekly) Contains(t time.Time) (ok bool)
+//@   property C18
+//@   ensures wallclock: ok == (w.days[wdOf(t, w.location)].start <= clockOf(t, w.location) && clockOf(t, w.location) < w.days[wdOf(t, w.location)].end)
